@@ -111,6 +111,38 @@ theorem processOperation_get_value {c : Ctx} {e : Engine} {it : Item} {eff : Eff
     · inv h
     · exact opGet_value h
 
+/-- in the results of a batch, a `Data.object` answer belongs to a Get item -/
+theorem batchSpec_object_op (c : Ctx) (stop : Bool) (e : Engine) (items : List Item) :
+    ∀ r ∈ (batchSpec c stop e items).2, ∀ d, r.result = .ok d → d.isObject = true → r.op = Op.get := by
+  induction items generalizing e with
+  | nil => intro r hr; simp [batchSpec] at hr
+  | cons it rest ih =>
+    intro r hr d hd hobj
+    simp only [batchSpec] at hr
+    cases hp : processOperation c e it with
+    | ok p =>
+      obtain ⟨eff, d0⟩ := p
+      rw [hp] at hr
+      simp only [List.mem_cons] at hr
+      rcases hr with rfl | hr
+      · simp only [Except.ok.injEq] at hd
+        subst hd
+        obtain ⟨u, f, cp, w, hpay⟩ := object_only_from_get hp hobj
+        simp only [hpay, Payload.op]
+      · exact ih _ r hr d hd hobj
+    | error err =>
+      rw [hp] at hr
+      cases stop with
+      | true =>
+        simp only [if_true, List.mem_singleton] at hr
+        subst hr
+        cases hd
+      | false =>
+        simp only [Bool.false_eq_true, if_false, List.mem_cons] at hr
+        rcases hr with rfl | hr
+        · cases hd
+        · exact ih _ r hr d hd hobj
+
 /-! ### inserted values are supplied by the creating item -/
 
 theorem cryptoToken_ok {cr : Crypto} {t : String} (h : cryptoToken cr = .ok t) : cr = .ok t := by
@@ -130,10 +162,7 @@ theorem opCreate_supplies {c e ot t cr eff d} (h : opCreate c e ot t cr = .ok (e
     ∃ o, eff = .insert [o] ∧ cr = .ok o.value := by
   unfold opCreate at h
   inv h
-  strip h
-  subst eff
-  have hs : setAttrs c _ _ = .ok _ := by assumption
-  have ht : cryptoToken cr = .ok _ := by assumption
+  obtain ⟨_, _, _, _, _, _, _, _, _, tok, ht, _, o, hs, rfl, _⟩ := h
   refine ⟨_, rfl, ?_⟩
   rw [cryptoToken_ok ht]
   exact congrArg Crypto.ok (setAttrs_core hs).value.symm
@@ -147,20 +176,15 @@ theorem opRegister_supplies {c e ot t ro eff d} (h : opRegister c e ot t ro = .o
   · inv h
   · rename_i r
     inv h
-    strip h
-    subst eff
-    have hs : setAttrs c _ _ = .ok _ := by assumption
+    obtain ⟨_, _, _, _, o, hs, rfl, _⟩ := h
     exact ⟨_, r, rfl, rfl, (setAttrs_core hs).value⟩
 
 theorem opDeriveKey_supplies {c e ot us t cr eff d} (h : opDeriveKey c e ot us t cr = .ok (eff, d)) :
     ∃ o tok n, eff = .insert [o] ∧ cr = .ok tok ∧ o.value = (tok.take n).toString := by
   unfold opDeriveKey at h
   inv h
-  strip h
-  subst eff
-  have hs : setAttrs c _ _ = .ok _ := by assumption
-  have ht : cryptoToken cr = .ok _ := by assumption
-  refine ⟨_, _, _, rfl, cryptoToken_ok ht, ?_⟩
+  obtain ⟨_, _, _, _, _, _, bytes, _, _, _, tok, ht, _, o, hs, rfl, _⟩ := h
+  refine ⟨_, tok, 2 * bytes, rfl, cryptoToken_ok ht, ?_⟩
   refine (setAttrs_core hs).value.trans ?_
   unfold derivedObj
   split <;> rfl
@@ -260,5 +284,108 @@ theorem inserted_values_supplied {c : Ctx} {e : Engine} {it : Item} {os : List O
       · unfold opModifyAttribute at h; effect_shape h
       · unfold opDeleteAttribute at h; effect_shape h
       · inv h
+
+/-! ### stored values over batches, requests and histories -/
+
+/-- an object with a fresh identifier after an effect was inserted by that effect -/
+theorem applyEffect_fresh {e : Engine} {eff : Effect} (hi : e.store.Inv) {y : Obj}
+    (hy : y ∈ (applyEffect e eff).store.objs) (hge : e.store.nextUid ≤ y.uid) :
+    ∃ os, eff = .insert os ∧ ∃ o ∈ os, y.value = o.value := by
+  cases eff with
+  | none => have := hi.2 y hy; omega
+  | insert os =>
+    rcases (Store.insertAll_spec e.store os hi).2.2 y hy with h | ⟨_, o, ho, hyo⟩
+    · have := hi.2 y h; omega
+    · exact ⟨os, rfl, o, ho, by rw [hyo]⟩
+  | update o' =>
+    exfalso
+    simp only [applyEffect, Store.update, List.mem_map] at hy
+    obtain ⟨z, hz, rfl⟩ := hy
+    have := hi.2 z hz
+    split at hge
+    · rename_i hh; simp only [beq_iff_eq] at hh; omega
+    · omega
+  | delete u =>
+    exfalso
+    simp only [applyEffect, Store.delete] at hy
+    have := hi.2 y (List.mem_filter.mp hy).1
+    omega
+
+/-- where the value of an object stored after a batch comes from -/
+theorem batchSpec_values (c : Ctx) (hr : RulesProtect c) (stop : Bool) (e : Engine) (items : List Item)
+    (hi : e.store.Inv) (hs : e.store.StatesOk) :
+    ∀ x ∈ (batchSpec c stop e items).1.store.objs,
+      (∃ y ∈ e.store.objs, y.uid = x.uid ∧ x.value = y.value) ∨
+      (e.store.nextUid ≤ x.uid ∧ ∃ it ∈ items, it.Supplies x.value) := by
+  induction items generalizing e with
+  | nil => exact fun x hx => Or.inl ⟨x, hx, rfl, rfl⟩
+  | cons it rest ih =>
+    intro x hx
+    simp only [batchSpec] at hx
+    cases hp : processOperation c e it with
+    | ok r =>
+      obtain ⟨eff, d⟩ := r
+      rw [hp] at hx
+      have hev := applyEffect_evolves hi hs (processOperation_spec hr hp)
+      rcases ih (applyEffect e eff) hev.inv hev.ok x hx with ⟨y, hy1, hyu, hv⟩ | ⟨hge1, it', hit', hsup⟩
+      · rcases hev.ext.2 y hy1 with ⟨z, hz, hzu⟩ | hge
+        · have hp' := hev.persist z hz y hy1 hzu.symm
+          exact Or.inl ⟨z, hz, hzu.trans hyu, hv.trans hp'.value⟩
+        · obtain ⟨os, rfl, o, ho, hyo⟩ := applyEffect_fresh hi hy1 hge
+          have := inserted_values_supplied hp o ho
+          refine Or.inr ⟨hyu ▸ hge, it, List.mem_cons_self, ?_⟩
+          rw [hv, hyo]; exact this
+      · exact Or.inr ⟨Nat.le_trans hev.ext.1 hge1, it', List.mem_cons_of_mem _ hit', hsup⟩
+    | error err =>
+      rw [hp] at hx
+      cases stop with
+      | true => exact Or.inl ⟨x, hx, rfl, rfl⟩
+      | false =>
+        rcases ih e hi hs x hx with h | ⟨hge, it', hit', hsup⟩
+        · exact Or.inl h
+        · exact Or.inr ⟨hge, it', List.mem_cons_of_mem _ hit', hsup⟩
+
+theorem processRequest_values (c : Ctx) (hr : RulesProtect c) (e : Engine) (id : Identity) (r : Request)
+    (hi : e.store.Inv) (hs : e.store.StatesOk) :
+    ∀ x ∈ (processRequest c e id r).1.store.objs,
+      (∃ y ∈ e.store.objs, y.uid = x.uid ∧ x.value = y.value) ∨
+      (e.store.nextUid ≤ x.uid ∧ ∃ it ∈ r.items, it.Supplies x.value) := by
+  intro x hx
+  rcases processRequest_cases c e id r with ⟨hst, _⟩ | hb
+  · rw [hst] at hx; exact Or.inl ⟨x, hx, rfl, rfl⟩
+  · rw [hb] at hx
+    exact batchSpec_values c hr r.stop ⟨e.store, none, r.version, id⟩ r.items hi hs x hx
+
+/-- the values a step of a history can put into the store -/
+def Step.Supplies (s : Step) (v : String) : Prop :=
+  match s with
+  | .request _ _ r => ∃ it ∈ r.items, it.Supplies v
+  | .restart => False
+
+theorem run_values (e : Engine) (steps : List Step) (hok : StepsOk steps) (hi : e.store.Inv)
+    (hs : e.store.StatesOk) :
+    ∀ x ∈ (run e steps).store.objs,
+      (∃ y ∈ e.store.objs, y.uid = x.uid ∧ x.value = y.value) ∨
+      (e.store.nextUid ≤ x.uid ∧ ∃ s ∈ steps, s.Supplies x.value) := by
+  induction steps generalizing e with
+  | nil => exact fun x hx => Or.inl ⟨x, hx, rfl, rfl⟩
+  | cons s rest ih =>
+    intro x hx
+    rw [run_cons] at hx
+    have hok' : StepsOk rest := fun s hs' => hok s (List.mem_cons_of_mem _ hs')
+    have hev : Evolves e.store (stepEngine e s).store := by
+      cases s with
+      | request c id r => exact processRequest_evolves c (hok (.request c id r) List.mem_cons_self) e id r hi hs
+      | restart => exact Evolves.refl _ hi hs
+    rcases ih (stepEngine e s) hok' hev.inv hev.ok x hx with ⟨y, hy1, hyu, hv⟩ | ⟨hge1, s', hs', hsup⟩
+    · cases s with
+      | request c id r =>
+        have hr := hok (.request c id r) List.mem_cons_self
+        rcases processRequest_values c hr e id r hi hs y hy1 with ⟨z, hz, hzu, hzv⟩ | ⟨hge, it, hit, hsup⟩
+        · exact Or.inl ⟨z, hz, hzu.trans hyu, hv.trans hzv⟩
+        · refine Or.inr ⟨hyu ▸ hge, .request c id r, List.mem_cons_self, it, hit, ?_⟩
+          rw [hv]; exact hsup
+      | restart => exact Or.inl ⟨y, hy1, hyu, hv⟩
+    · exact Or.inr ⟨Nat.le_trans hev.ext.1 hge1, s', List.mem_cons_of_mem _ hs', hsup⟩
 
 end Kmip
